@@ -233,6 +233,8 @@ func checkC05(p *Program, r *Report) {
 	if nPriv == 0 || nPub == 0 {
 		r.Add("C05.valid", fname, "both a private and a public accepting arm exist", fn.Pos(), false, fmt.Sprintf("private arms %d, public arms %d", nPriv, nPub))
 	}
+	canonicalInput(p, r, "C05.canon", []*ssa.Function{fn})
+	base58ByteLookup(p, r, "C05.canon")
 	r.Floor("C05.len", 1)
 	r.Floor("C05.checksum", 1)
 	r.Floor("C05.valid", 3)
